@@ -79,6 +79,9 @@ def space(tier, seed):
         if tier == "quick" and (scn["period"] == 5 or len(scn["sessions"]) > 2):
             continue
         items.append({"part": "sim", "scn": scn})
+    # (c) cells of simulations on a StochasticNetwork (stations assigned at run time, EVs swapped out early)
+    for it in c02.stoch_items("quick"):
+        items.append({"part": "stoch", "item": it})
     return items
 
 
@@ -89,9 +92,12 @@ def mk(cfg, soc):
     return Linear2StageBattery(cfg["cap"], init, cfg["pmax"], noise_level=cfg["sigma"], transition_soc=cfg["tsoc"], charge_calculation=cfg["calc"])
 
 
-def run_sequence(cfg, soc, v, period, pilots, chooser, viol):
-    """one execution: a fresh battery, the pilot sequence, noise decided by the chooser"""
+def run_sequence(cfg, soc, v, period, pilots, chooser, viol, alt=False):
+    """one execution: a fresh battery, the pilot sequence, noise decided by the chooser; with alt the
+    period length alternates between `period` and the next of (1, 5, 60) from call to call on the SAME object"""
     b = mk(cfg, soc)
+    base_period = period
+    other = {1: 5, 5: 60, 60: 1}.get(period, period * 3)
     cap, pmax = cfg["cap"], cfg["pmax"]
     interior = False
 
@@ -100,6 +106,7 @@ def run_sequence(cfg, soc, v, period, pilots, chooser, viol):
 
     with S.owned_noise(draw):
         for step, pilot in enumerate(pilots):
+            period = other if (alt and step % 2 == 1) else base_period
             before = b._current_charge
             try:
                 rate = b.charge(pilot, v, period)
@@ -130,9 +137,10 @@ def run_battery(item, acc):
     noisy = cfg.get("sigma", 0) > 0
     for L in range(1, item["L"] + 1):
         for pilots in itertools.product(PILOTS, repeat=L):
+          for alt in ((False, True) if L >= 2 else (False,)):
             def body(ch):
                 viol = []
-                interior = run_sequence(cfg, soc, v, period, pilots, ch, viol)
+                interior = run_sequence(cfg, soc, v, period, pilots, ch, viol, alt=alt)
                 return viol, interior
 
             for choices, res in explore_choices(body, bound=item["D"] if noisy else 0):
@@ -140,10 +148,10 @@ def run_battery(item, acc):
                 acc.evals += 1
                 acc.transitions += L
                 if interior:
-                    acc.nt((cfg["kind"], cfg.get("calc"), cfg.get("sigma"), cfg.get("tsoc"), cfg["pmax"], soc, v, period, pilots, tuple(choices)))
+                    acc.nt((cfg["kind"], cfg.get("calc"), cfg.get("sigma"), cfg.get("tsoc"), cfg["pmax"], soc, v, period, pilots, tuple(choices), alt))
                 acc.outcome((len(viol), interior, L))
                 for sig, what, o, e in viol:
-                    acc.violation(sig, what, {"part": "battery", "cfg": cfg, "soc": soc, "v": v, "period": period, "pilots": list(pilots), "choices": list(choices)}, o, e)
+                    acc.violation(sig, what, {"part": "battery", "cfg": cfg, "soc": soc, "v": v, "period": period, "pilots": list(pilots), "choices": list(choices), "alt": alt}, o, e)
     acc.sample({"battery": cfg, "soc0": soc, "V": v, "period": period, "pilot_sequences": "all of length<=%d over %s" % (item["L"], list(PILOTS))}, cap=2)
 
 
@@ -169,8 +177,48 @@ def check_sim(scn, viol):
     return tr
 
 
+def check_stoch(it, choices, viol):
+    from mc.engines import Chooser
+
+    sim, net, evs, log, err = c02.stoch_once(it, Chooser(choices))
+    if err is not None:
+        viol.append(("stoch-exception:%s" % type(err).__name__, "run() raised %r" % (err,), repr(err), None))
+        return sim, log
+    cr, ps = sim.charging_rates, sim.pilot_signals
+    for i, sid in enumerate(net.station_ids):
+        for t in range(cr.shape[1]):
+            p = ps[i, t] if t < ps.shape[1] else 0.0
+            if cr[i, t] < -1e-9 or cr[i, t] > p * (1 + 1e-9) + 1e-9:
+                viol.append(("stoch-cell-rate-outside-0-pilot", "StochasticNetwork run: charging_rates[%s,%d]=%.9g, pilot %.9g" % (sid, t, cr[i, t], p), float(cr[i, t]), float(p)))
+                return sim, log
+    return sim, log
+
+
+def run_stoch(item, acc):
+    it = item["item"]
+
+    def body(ch):
+        viol = []
+        sim, net, evs, log, err = c02.stoch_once(it, ch)
+        return list(ch.choices)
+
+    for choices, _ in explore_choices(body):
+        viol = []
+        sim, log = check_stoch(it, choices, viol)
+        acc.evals += 1
+        acc.transitions += len(log)
+        acc.outcome(("stoch", len(viol), round(float(sim.peak), 2)))
+        if float(sim.peak) > 0:
+            acc.nt(("stoch", tuple(it["types"]), it["ns"], it["early"], tuple(choices)))
+        for sig, what, o, e in viol:
+            acc.violation(sig, what, {"part": "stoch", "item": it, "choices": list(choices)}, o, e)
+
+
 def run(item):
     acc = Acc()
+    if item["part"] == "stoch":
+        run_stoch(item, acc)
+        return acc
     if item["part"] == "battery":
         run_battery(item, acc)
     else:
@@ -191,7 +239,9 @@ def replay(scn):
     if scn["part"] == "battery":
         from mc.engines import Chooser
 
-        run_sequence(scn["cfg"], scn["soc"], scn["v"], scn["period"], scn["pilots"], Chooser(scn["choices"]), viol)
+        run_sequence(scn["cfg"], scn["soc"], scn["v"], scn["period"], scn["pilots"], Chooser(scn["choices"]), viol, alt=bool(scn.get("alt")))
+    elif scn["part"] == "stoch":
+        check_stoch(scn["item"], scn.get("choices") or [], viol)
     else:
         check_sim(scn["scn"], viol)
     return [{"signature": s, "what": w, "observed": o, "expected": e} for s, w, o, e in viol]
